@@ -39,13 +39,8 @@ impl TlsHandshaker {
         let stream = match connector.connect(domain, stream) {
             Ok(stream) => stream,
             Err(HandshakeError::Failure(err)) => return Err(err.into()),
-            Err(HandshakeError::WouldBlock(mut stream)) => loop {
-                match stream.handshake() {
-                    Ok(stream) => break stream,
-                    Err(HandshakeError::Failure(err)) => return Err(err.into()),
-                    Err(HandshakeError::WouldBlock(mid_stream)) => stream = mid_stream,
-                }
-            },
+            // The stream is blocking: it only reports WouldBlock when its read timeout expired.
+            Err(HandshakeError::WouldBlock(_)) => return Err(io::Error::from(io::ErrorKind::TimedOut).into()),
         };
         Ok(TlsStream { inner: stream })
     }
